@@ -61,13 +61,13 @@ type AnsSpec struct {
 	TokenType string `json:"tt"` // default Bearer
 	AudArray  bool   `json:"audArray"`
 	AudMulti  bool   `json:"audMulti"` // the audience is an array naming the client AND a resource server (no azp claim: it is optional)
-	Extra     bool   `json:"extra"`   // extra members in the body
-	IatSkew   int    `json:"iatSkew"` // seconds the provider's clock is ahead: iat and nbf of the ID token lie that far in the future
-	Big       bool   `json:"big"`     // a large (but compliant) answer: ID token with hundreds of groups, a 12 KB extra member
-	IDLife    int    `json:"idLife"`  // seconds, default 60
-	RfNonce   string `json:"rfNonce"` // refresh: same (default) | absent | foreign
-	KeySet    string `json:"keySet"`  // "" | "k3": switch the configured key set before answering
-	SignKey   string `json:"signKey"` // "" = a key of the addressed filter's configured set | "k1" | "k3": sign honestly-shaped tokens with this key
+	Extra     bool   `json:"extra"`    // extra members in the body
+	IatSkew   int    `json:"iatSkew"`  // seconds the provider's clock is ahead: iat and nbf of the ID token lie that far in the future
+	Big       bool   `json:"big"`      // a large (but compliant) answer: ID token with hundreds of groups, a 12 KB extra member
+	IDLife    int    `json:"idLife"`   // seconds, default 60
+	RfNonce   string `json:"rfNonce"`  // refresh: same (default) | absent | foreign
+	KeySet    string `json:"keySet"`   // "" | "k3": switch the configured key set before answering
+	SignKey   string `json:"signKey"`  // "" = a key of the addressed filter's configured set | "k1" | "k3": sign honestly-shaped tokens with this key
 }
 
 // Directive is what a step hands to the pending gate of a check.
